@@ -4,6 +4,7 @@ import DuneVerif.Proofs.C02Minor
 import DuneVerif.Proofs.C02Top
 import DuneVerif.Proofs.C02FloatLU
 import DuneVerif.Proofs.C02FloatDet
+import DuneVerif.Proofs.C02FloatInv
 import Mathlib.LinearAlgebra.Matrix.NonsingularInverse
 import Mathlib.LinearAlgebra.Matrix.ToLinearEquiv
 import Mathlib.Algebra.Order.Field.Rat
@@ -19,7 +20,14 @@ Part 2 (LU path, `rows() ≥ 4`; the model is for every `n`): theorems about the
 "absolute value" `absval : K → Q` into a linear order with `absval x = 0 ↔ x = 0` and `0 ≤ absval x`
 (hence for every pivot choice such a function can induce).
 
+Part 2b (the member functions as a whole): `DV.C02.determinant / solve / invert` of Model/C02Top.lean — the size dispatch
+between Part 1 and Part 2 (sizes read off the source), both pivoting modes, the calls without the optional argument
+(defaults read off the source).  These theorems are the clauses of the property as stated.
+
 Part 3: DiagonalMatrix.
+
+Part 4 (floating point): the same models over reals with rounded operations — backward-error bounds of Gaussian
+elimination for solve / invert / determinant on the LU path and for DiagonalMatrix.
 
 "solve and determinant never modify A or b": the model is purely functional (inputs cannot change); for the real
 code this clause is checked by the harness (operands compared before/after every call).
@@ -542,26 +550,30 @@ are literally the functions of Parts 2–3 instantiated at `FlR R`.  `Flt.gamma 
 `Flt.Lr`, `Flt.Ur` are the computed factors `L̂` (unit lower triangular, the stored multipliers) and `Û`.
 
 Proved for every `n`, both pivoting modes, every pivot choice: the **backward-error bound of Gaussian elimination**
-for the LU path of `solve` (Higham, *Accuracy and Stability of Numerical Algorithms*, Thm 9.3 + 8.5 ⇒ 9.4, with the
-constant `3γ_{n+1} + γ_{n+1}²` instead of `γ_{3n}`): the computed `x̂` is the exact solution of a system whose
-(row-permuted) matrix differs from `A` entry-wise by at most `(3γ+γ²) (|L̂| |Û|)`; for the LU path of `determinant`:
-the computed value is `det(A + ΔA)(1 + θ)`, `|ΔA| ≤ γ_n |L̂||Û|`, `|θ| ≤ γ_{2n}`.  Also the triangular solve alone and
-the three DiagonalMatrix members.
+for the LU paths (Higham, *Accuracy and Stability of Numerical Algorithms*, Thm 9.3 + 8.5 ⇒ 9.4, with the constant
+`3γ_{n+1} + γ_{n+1}²` instead of `γ_{3n}`):
+* `solve`: the computed `x̂` is the exact solution of a system whose (row-permuted) matrix differs from `A` entry-wise
+  by at most `(3γ+γ²) (|L̂| |Û|)`;
+* `invert`: every column `b̂_c` of the computed inverse is the exact solution of such a perturbed system
+  `(A + ΔA_c) b̂_c = e_c` (Higham §14.3: this bounds the right residual `A B̂ − I`; the left residual `B̂ A − I` of an
+  inverse computed column by column is not small in general and nothing is claimed about it);
+* `determinant`: the computed value is `det(A + ΔA)(1 + θ)`, `|ΔA| ≤ γ_n |L̂||Û|`, `|θ| ≤ γ_{2n}`;
+* the triangular solve alone and the three DiagonalMatrix members.
 
-NOT proved (full statements kept here):
-* `invertLU_backward_error`: `|A·B̂ − I| ≤ c_n u |A| |Û⁻¹| |L̂⁻¹| …` (Higham §14.3, method B) — the sweeps of `invert`
-  are modelled and proved exact over fields (Part 2), their rounding analysis is missing;
-* the closed forms for `n ≤ 3` are Cramer's rule, which is forward but not backward stable (Higham §1.10.1): the
-  appropriate statement is a forward bound `‖x̂ − x‖ ≤ c u cond(A) ‖x‖`, not proved;
-* that IEEE binary64/80-bit/complex arithmetic of the C++ compiler satisfies `Flt.Rounding` with `u = 2⁻⁵³` etc.
+NOT proved:
+* the closed forms for `n ≤ 3` are Cramer's rule / the adjugate formula, which are forward but not backward stable
+  (Higham §1.10.1): the appropriate statement is a forward bound `‖x̂ − x‖ ≤ c u cond(A) ‖x‖`; not proved;
+* a bound in terms of `‖A‖` alone needs the growth factor `‖|L̂||Û|‖ ≤ n ρ_n ‖A‖` of partial pivoting
+  (`|l̂_ij| ≤ 1` because the pivot is the column maximum); the theorems below state the bound with `|L̂||Û|`, as
+  Higham's Theorem 9.4 does;
+* that IEEE binary64 / 80-bit / complex arithmetic of the C++ compiler satisfies `Flt.Rounding` with `u = 2⁻⁵³` etc.
   (true for round-to-nearest in the absence of overflow/underflow; complex multiplication and division satisfy it
   with a small multiple of `u`) is an assumption, not a theorem. -/
 section Float
 open Flt
 variable {R : Rounding} {n : Nat} {Q : Type} [LinearOrder Q] [Zero Q]
 
-/-- **backward error of `solve` on the LU path** (`solveLU_backward_error_partial` in the sense of the header: the
-statement is complete for `solve`, rows() ≥ 4; the analogous statements for `invert` and `determinant` are missing).
+/-- **backward error of `solve` on the LU path**.
 `habs0`: the magnitude used in the pivot search vanishes on zero (true for `abs`). -/
 theorem solveLU_backward_error (hn : ((n + 1 : ℕ) : ℝ) * R.u < 1) (piv : Bool) (absval : FlR R → Q)
     (habs0 : ∀ x : FlR R, x.val = 0 → absval x = 0) (A : Mat n (FlR R)) (b x : Vec n (FlR R))
@@ -604,6 +616,16 @@ theorem detLU_backward_error (hn : ((2 * n : ℕ) : ℝ) * R.u < 1) (piv : Bool)
           |Ur (luDecomp piv absval detFunc A (1 : FlR R)).A k c|) ∧
       (detLU piv absval A).val = (realMat A + ΔA).det * (1 + θ) :=
   detLU_backward_error_rows hn piv absval habs0 A hok
+
+/-- **backward error of `invert` on the LU path**, column by column -/
+theorem invertLU_backward_error (hn : ((n + 1 : ℕ) : ℝ) * R.u < 1) (piv : Bool) (absval : FlR R → Q)
+    (habs0 : ∀ x : FlR R, x.val = 0 → absval x = 0) (A B : Mat n (FlR R)) (h : invertLU piv absval A = .ok B) :
+    ∃ σ : Equiv.Perm (Fin n), ∀ c : Fin n, ∃ ΔA : Fin n → Fin n → ℝ,
+      (∀ r, ∑ k, ((A.f (σ r) k).val + ΔA r k) * (B.f k c).val = if σ r = c then 1 else 0) ∧
+      ∀ r k, |ΔA r k| ≤ (3 * gamma R.u (n + 1) + gamma R.u (n + 1) ^ 2) *
+        ∑ j, |Lr (luDecomp piv absval pivotFunc A idPivot).A r j| *
+          |Ur (luDecomp piv absval pivotFunc A idPivot).A j k| :=
+  invertLU_backward_error_cols hn piv absval habs0 A B h
 
 /-- the triangular solve alone (Higham Thm 8.5 for the loop order of the code): `(U + ΔU) x̂ = y`,
 `|ΔU| ≤ γ_{n+1} |U|` -/
